@@ -20,7 +20,7 @@
    `log` is the history the driver records from the real code; the clauses are operators over (case, log).      *)
 EXTENDS Integers, Sequences, FiniteSets, TLC, Json
 
-CONSTANTS Kinds,        \* subset of {"unary", "collector", "header", "request"}
+CONSTANTS Kinds,        \* subset of {"unary", "collector", "header", "request", "initreq", "xinput", "xupload"}
           Layouts,      \* names of the collector cycles explored, see LayoutSeq
           Thresholds,   \* subset of {"zero", "at", "above"}: externalize_threshold_bytes 0 / = payload size / never
           Comps,        \* subset of {"none", "zstd", "gzip"}
@@ -34,22 +34,32 @@ ByteCors == {"flip", "trunc", "subst", "subst_logs", "subst_exc"}
 StructCors == {"nested_before", "nested_after", "nested_only", "extra", "zero", "schema"}
 PtrShas == {"kept", "stripped", "forged"}
 
-HasSha(c) == c.kind # "request"          \* what the producer puts into the pointer
-Cases == {c \in [kind : Kinds, layout : Layouts, thr : Thresholds, comp : Comps, cor : Corruptions, psha : PtrShas] :
-            /\ (c.kind # "collector" => c.layout = "D")
-            /\ (c.kind = "request" => c.comp = "none")      \* request bodies are uploaded without a content encoding
+\* Kinds: "unary" result, "collector" cycle of a stream, stream "header" (server -> client);  "request" unary request,
+\* "initreq" stream-init request and "xupload" exchange input uploaded by the HTTP client through a server-vended URL
+\* (client -> server, pointer without checksum);  "xinput" an exchange input batch the caller hands over as a pointer
+\* with checksum, resolved by the server before process() runs.
+Uploaded == {"request", "initreq", "xupload"}
+HasSha(c) == c.kind \notin Uploaded     \* what the producer puts into the pointer
+\* md: the data batch carries application metadata (collector cycles);  flaky: the storage answers the first fetch
+\* with a transient error (the consumer retries)
+Cases == {c \in [kind : Kinds, layout : Layouts, thr : Thresholds, comp : Comps, cor : Corruptions, psha : PtrShas,
+                 md : BOOLEAN, flaky : {0, 1}] :
+            /\ (c.kind # "collector" => (c.layout = "D" /\ ~c.md))
+            /\ (c.kind \in Uploaded \cup {"xinput"} => c.comp = "none")   \* uploaded without a content encoding
+            /\ (c.flaky = 1 => (c.cor = "none" /\ c.psha = "kept" /\ c.thr = "zero" /\ ~c.md))
+            /\ (c.md => (c.psha = "kept" /\ c.cor \in {"none", "subst", "extra"}))
             /\ (c.thr = "above" => (c.cor = "none" /\ c.psha = "kept"))
             /\ (c.cor = "none" => c.psha \in {"kept", "stripped"})
             \* a byte-level change is only detectable through the checksum: explored where one is present and stale
             /\ (c.cor \in ByteCors => (c.psha = "kept" /\ HasSha(c)))}
 
 \* ------------------------------------------------------------------ state
-VARIABLES c, pc, store, psum, todo, seen, nlogs, log
-vars == <<c, pc, store, psum, todo, seen, nlogs, log>>
+VARIABLES c, pc, store, psum, todo, seen, nlogs, tries, log
+vars == <<c, pc, store, psum, todo, seen, nlogs, tries, log>>
 NoStore == [seq |-> <<>>, bytes |-> "-", enc |-> "-"]
 
 InitWith(cs) == /\ c = cs /\ pc = "produce" /\ store = NoStore /\ psum = "none" /\ todo = <<>> /\ seen = <<>>
-                /\ nlogs = 0 /\ log = <<>>
+                /\ nlogs = 0 /\ tries = 0 /\ log = <<>>
 Init == \E cs \in Cases : InitWith(cs)
 Ev(x) == log' = Append(log, x)
 
@@ -68,15 +78,16 @@ Produce ==
           /\ store' = [seq |-> LayoutSeq(c.layout), bytes |-> "orig", enc |-> c.comp]
           /\ psum' = IF HasSha(c) THEN "orig" ELSE "none"
           /\ pc' = "tamper"
-  /\ UNCHANGED <<c, todo, seen, nlogs>>
+  /\ UNCHANGED <<c, todo, seen, nlogs, tries>>
 
 \* inline delivery: log batches to on_log in order, the data batch to the caller
 Inline == /\ pc = "inline"
           /\ nlogs' = Count(LayoutSeq(c.layout), "L")
           /\ log' = log \o [i \in 1..Count(LayoutSeq(c.layout), "L") |-> [e |-> "log", forged |-> FALSE]]
-                        \o <<[e |-> "deliver", what |-> "D", logs |-> Count(LayoutSeq(c.layout), "L"), logs_ok |-> TRUE]>>
+                        \o <<[e |-> "deliver", what |-> "D", logs |-> Count(LayoutSeq(c.layout), "L"), logs_ok |-> TRUE,
+                              md_ok |-> TRUE]>>
           /\ pc' = "done"
-          /\ UNCHANGED <<c, store, psum, todo, seen>>
+          /\ UNCHANGED <<c, store, psum, todo, seen, tries>>
 
 \* ---- storage side ----
 Tamper ==
@@ -95,19 +106,23 @@ Tamper ==
   /\ psum' = CASE c.psha = "kept" -> psum [] c.psha = "stripped" -> "none" [] c.psha = "forged" -> "cur"
   /\ Ev([e |-> "tamper", cor |-> c.cor, psha |-> c.psha])
   /\ pc' = "fetch"
-  /\ UNCHANGED <<c, todo, seen, nlogs>>
+  /\ UNCHANGED <<c, todo, seen, nlogs, tries>>
 
 \* ---- consumer ----
 Reject(why) == /\ Ev([e |-> "reject", why |-> why]) /\ pc' = "done"
 \* fetch + content decoding: damaged compressed bytes may fail to decode (fetch raises), otherwise they decode to
 \* other bytes; then the checksum
 ShaOk == psum = "none" \/ psum = "cur" \/ (psum = "orig" /\ store.bytes = "orig")
+\* a transient storage error: the fetch is repeated (tenacity), nothing of the object has been seen yet
+Retry == /\ pc = "fetch" /\ c.flaky = 1 /\ tries = 0
+         /\ tries' = 1 /\ Ev([e |-> "retry"])
+         /\ UNCHANGED <<c, pc, store, psum, todo, seen, nlogs>>
 Fetch ==
-  /\ pc = "fetch"
+  /\ pc = "fetch" /\ (c.flaky = 1 => tries = 1)
   /\ \/ (store.bytes = "damaged" /\ store.enc # "none" /\ Reject("decode") /\ UNCHANGED todo)
      \/ (~ShaOk /\ Reject("sha") /\ UNCHANGED todo)
      \/ (ShaOk /\ store.bytes # "damaged" /\ todo' = store.seq /\ pc' = "walk" /\ UNCHANGED log)
-  /\ UNCHANGED <<c, store, psum, seen, nlogs>>
+  /\ UNCHANGED <<c, store, psum, seen, nlogs, tries>>
 Walk ==
   /\ pc = "walk" /\ todo # <<>>
   /\ LET x == Head(todo) IN
@@ -117,26 +132,30 @@ Walk ==
             THEN /\ nlogs' = nlogs + 1 /\ Ev([e |-> "log", forged |-> (x = "F")]) /\ todo' = Tail(todo)
                  /\ UNCHANGED <<seen, pc>>
        ELSE /\ seen' = Append(seen, x) /\ todo' = Tail(todo) /\ UNCHANGED <<nlogs, log, pc>>
-  /\ UNCHANGED <<c, store, psum>>
+  /\ UNCHANGED <<c, store, psum, tries>>
 Finish ==
   /\ pc = "walk" /\ todo = <<>>
   /\ IF Len(seen) = 0 THEN Reject("nodata")
      ELSE IF Len(seen) > 1 THEN Reject("multi")
      ELSE IF seen[1] = "S" THEN Reject("schema")
-     ELSE /\ Ev([e |-> "deliver", what |-> seen[1], logs |-> nlogs, logs_ok |-> TRUE]) /\ pc' = "done"
-  /\ UNCHANGED <<c, store, psum, todo, seen, nlogs>>
+     ELSE /\ Ev([e |-> "deliver", what |-> seen[1], logs |-> nlogs, logs_ok |-> TRUE, md_ok |-> TRUE]) /\ pc' = "done"
+  /\ UNCHANGED <<c, store, psum, todo, seen, nlogs, tries>>
 Terminated == pc = "done" /\ UNCHANGED vars
 
-Next == Produce \/ Inline \/ Tamper \/ Fetch \/ Walk \/ Finish \/ Terminated
+Next == Produce \/ Inline \/ Tamper \/ Retry \/ Fetch \/ Walk \/ Finish \/ Terminated
 Spec == Init /\ [][Next]_vars
 
 \* ------------------------------------------------------------------ property clauses over (case, log)
 Delivered(lg) == \E i \in 1..Len(lg) : lg[i].e = "deliver"
 Last(lg) == lg[Len(lg)]
 \* without corruption the consumer gets exactly what inline delivery gives: the data batch and the same log messages
+\* (batch, its application metadata, log messages);  a storage that is transiently unavailable may make the call
+\* fail, but what is delivered is still the same
+Same(cs, ev) == /\ ev.what = "D" /\ ev.md_ok /\ ev.logs = Count(LayoutSeq(cs.layout), "L") /\ ev.logs_ok
 Transparent(cs, lg) ==
-  cs.cor = "none" => /\ Len(lg) > 0 /\ Last(lg).e = "deliver" /\ Last(lg).what = "D"
-                     /\ Last(lg).logs = Count(LayoutSeq(cs.layout), "L") /\ Last(lg).logs_ok
+  cs.cor = "none" => /\ Len(lg) > 0
+                     /\ IF cs.flaky = 0 THEN Last(lg).e = "deliver" /\ Same(cs, Last(lg))
+                        ELSE Last(lg).e = "deliver" => Same(cs, Last(lg))
 \* the pointer carries a checksum that the stored payload no longer matches
 ShaDiffers(cs) == cs.cor # "none" /\ cs.psha = "kept" /\ HasSha(cs)
 ShaEnforced(cs, lg) == ShaDiffers(cs) => ~Delivered(lg)
